@@ -114,7 +114,9 @@ def _mixed_block(V, rng, tier):
     import torch, torchtt, mixdtype
     dist = {}
     mixdtype.run_block(V, rng, torch, torchtt, True, dist, 12 if tier == "quick" else 120)
-    return {"mixed_dtype_and_non_dyadic_scalar_cases": dist}
+    import staleprobe
+    n_stale = staleprobe.run_block(V, rng, torch, torchtt, "transpose / full of an operator", ["ttm", "svd-ttm"], 8 if tier == "quick" else 80)
+    return {"mixed_dtype_and_non_dyadic_scalar_cases": dist, "read_mutate_read_probe_readouts": n_stale}
 
 def run(tier, seed, replay=None):
     import torch
